@@ -22,6 +22,7 @@ import (
 	"github.com/kardiachain/go-kardia/kai/kaidb/memorydb"
 	"github.com/kardiachain/go-kardia/lib/common"
 	"github.com/kardiachain/go-kardia/lib/crypto"
+	"github.com/kardiachain/go-kardia/mainchain/genesis"
 	kproto "github.com/kardiachain/go-kardia/proto/kardiachain/types"
 	"github.com/kardiachain/go-kardia/types"
 	ktime "github.com/kardiachain/go-kardia/types/time"
@@ -98,9 +99,21 @@ type Config struct {
 	ValScript    map[uint64][]int64 // height -> new power vector reported by the application after that height (0 = removed)
 	Restarts     bool               // offer Restart(i) deviations (C04); nodes then run on a real WAL
 	NoByzMenu    bool
-	ByzVariants  []string // proposal variants offered (nil = A, B and every invalid variant)
-	ByzProposer  bool     // make the (single) Byzantine validator the round-1 proposer of height 1
-	Driver       string   // scripted prefix executed before the exploration starts ("" = genesis)
+	// Full, when set, runs every validator on the REAL node stack (blockchain, staking contracts, tx
+	// pool ...) booted from the given genesis instead of the simulated application.
+	Full        *FullSpec
+	ByzVariants []string // proposal variants offered (nil = A, B and every invalid variant)
+	ByzProposer bool     // make the (single) Byzantine validator the round-1 proposer of height 1
+	Driver      string   // scripted prefix executed before the exploration starts ("" = genesis)
+}
+
+// BootError is the panic value of a network whose nodes cannot be constructed from their genesis.
+type BootError struct{ Err error }
+
+// FullSpec describes a full-stack network.
+type FullSpec struct {
+	Genesis func() *genesis.Genesis // a fresh object per call
+	Keys    []int                   // validator i uses allKeys[Keys[i]]
 }
 
 // Msg is one network message with its provenance.
@@ -145,6 +158,7 @@ type World struct {
 	Cfg      Config
 	X        *explore.Ctx
 	walDir   string
+	BootErr  error
 	Restarts int
 	cur      int // node currently stepping (for the logical clock)
 	saved    []int
@@ -233,6 +247,13 @@ func NewWorld(cfg Config, x *explore.Ctx) *World {
 	clockMu.Unlock()
 	n := len(cfg.Powers)
 	w.Keys, w.Addrs = allKeys[:n], allAddrs[:n]
+	if cfg.Full != nil {
+		w.Keys, w.Addrs = nil, nil
+		for _, k := range cfg.Full.Keys {
+			w.Keys = append(w.Keys, allKeys[k])
+			w.Addrs = append(w.Addrs, allAddrs[k])
+		}
+	}
 	gen := &consensus.VerifGenesis{ChainID: "verifnet", Time: baseTime, Params: types.DefaultConsensusParams()}
 	for i, p := range cfg.Powers {
 		gen.Validators = append(gen.Validators, types.NewValidator(w.Addrs[i], p))
@@ -268,12 +289,29 @@ func NewWorld(cfg Config, x *explore.Ctx) *World {
 			continue
 		}
 		w.Correct = append(w.Correct, i)
+		if cfg.Full != nil {
+			w.Nodes[i] = w.bootFull(i)
+			continue
+		}
 		db := memorydb.New()
 		consensus.VerifWriteGenesisBlock(db, gen)
 		w.DBs[i] = db
 		w.Nodes[i] = w.bootNode(i, w.openWAL(i))
 	}
 	return w
+}
+
+func (w *World) bootFull(i int) *consensus.VerifNode {
+	g := w.Cfg.Full.Genesis()
+	w.Gen.ChainID, w.Gen.Time = g.ChainID, g.Timestamp
+	rec := &consensus.VerifRecorder{Off: true}
+	nd, err := consensus.VerifBootFull(consensus.VerifFullConfig{Key: w.Keys[i], DB: consensus.VerifNewRecDB(rec), Rec: rec, Genesis: g, NoWAL: true})
+	if err != nil {
+		w.BootErr = fmt.Errorf("node %d cannot boot from the genesis: %w", i, err)
+		panic(BootError{w.BootErr})
+	}
+	w.hookNode(nd, i)
+	return nd
 }
 
 func (w *World) openWAL(i int) consensus.WAL {
@@ -334,6 +372,11 @@ func (w *World) bootNode(i int, wal consensus.WAL) *consensus.VerifNode {
 	if err != nil {
 		panic(fmt.Sprintf("netsim: cannot construct node %d: %v", i, err))
 	}
+	w.hookNode(nd, i)
+	return nd
+}
+
+func (w *World) hookNode(nd *consensus.VerifNode, i int) {
 	idx := i
 	nd.OnSign = func(_ *consensus.VerifNode, rec consensus.VerifSignRecord) {
 		for _, m := range w.Monitors {
@@ -348,7 +391,6 @@ func (w *World) bootNode(i int, wal consensus.WAL) *consensus.VerifNode {
 			mo.OnDeliver(w, d)
 		}
 	}
-	return nd
 }
 
 // Close releases every node and the clock slot.
@@ -358,7 +400,11 @@ func (w *World) Close() {
 			if w.walDir != "" {
 				n.StopWAL()
 			}
-			n.Close()
+			if n.Full != nil {
+				n.StopFull()
+			} else {
+				n.Close()
+			}
 		}
 	}
 	if w.walDir != "" {
